@@ -175,7 +175,8 @@ func (v *vdrRun) moreShapes(job *TAJob, stage *syntax.Stage, params []*syntax.Ou
 			if _, bound := init.FileArgs[p.Id]; bound {
 				continue
 			}
-			if _, ok := outs[p.Id].(string); ok && hash64("vdr-big", job.Key, p.Id)%3 == 0 {
+			// (the corpus program big_outs_restart.mro names such outputs blobN: always large)
+			if _, ok := outs[p.Id].(string); ok && (strings.HasPrefix(p.Id, "blob") || hash64("vdr-big", job.Key, p.Id)%3 == 0) {
 				outs[p.Id] = strings.Repeat("blob0123456789abcdef", 120000) // 2.4 MB
 				v.hist("shape-outs-larger-than-2MiB")
 			}
